@@ -261,6 +261,23 @@ func (r *runner) doCall(h int, c Call) {
 				}
 				tr.Close()
 			}
+		case "abort":
+			// an abandoned transaction: tables are added, then the Addition is closed without Commit
+			var tr *reftable.Addition
+			tr, err = st.NewAddition()
+			if err == nil {
+				idx := st.NextUpdateIndex()
+				for i, p := range c.Parts {
+					if err = tr.Add(r.tableWriter(st, idx+uint64(i), p, c.Txn*10+i)); err != nil {
+						break
+					}
+				}
+				tr.Close()
+				if err == nil {
+					res, msg = "rejected", "abandoned by the caller"
+					return
+				}
+			}
 		case "overlap":
 			// a caller that tries to add, in one transaction, a second table whose update-index range starts
 			// inside the range of the first: must be refused (C05: ranges strictly increasing)
